@@ -135,6 +135,33 @@ def f_oneof_disc(d):
     use(d, "payment", "Payment")
 
 
+def f_disc_numeric_keys(d):
+    # discriminator values that LOOK like numbers: JSON writes the mapping keys as strings, YAML may write them bare
+    S(d)["TierOne"] = obj({"level": {"type": "string", "enum": ["1"]}, "one": {"type": "string"}}, ["level"])
+    S(d)["TierTwo"] = obj({"level": {"type": "string", "enum": ["2"]}, "two": {"type": "integer"}}, ["level"])
+    S(d)["Tier"] = {
+        "oneOf": [ref("TierOne"), ref("TierTwo")],
+        "discriminator": {"propertyName": "level", "mapping": {"1": R + "TierOne", "2": R + "TierTwo"}},
+    }
+    use(d, "tier", "Tier")
+
+
+def f_numeric_prop_keys(d):
+    # a property whose name looks like a number (YAML may write the key bare)
+    S(d)["Counts"] = obj({"404": {"type": "integer"}, "name": {"type": "string"}})
+    use(d, "counts", "Counts")
+
+
+def f_case_variant_schemas(d):
+    # two pairs of schemas whose class names differ only in capitalisation: every case-insensitive ordering ties on them
+    S(d)["MetaData"] = obj({"a": {"type": "string"}})
+    S(d)["Metadata"] = obj({"b": {"type": "integer"}})
+    S(d)["WebHook"] = obj({"url": {"type": "string"}})
+    S(d)["Webhook"] = obj({"target": {"type": "string"}})
+    S(d)["CaseHolder"] = obj({"m1": ref("MetaData"), "m2": ref("Metadata"), "w1": ref("WebHook"), "w2": ref("Webhook")})
+    use(d, "case_holder", "CaseHolder")
+
+
 def f_oneof_disc_nomap(d):
     S(d)["EvA"] = obj({"type": {"type": "string"}, "a": {"type": "string"}}, ["type"])
     S(d)["EvB"] = obj({"type": {"type": "string"}, "b": {"type": "string"}}, ["type"])
